@@ -31,3 +31,22 @@ void h_base64(void)
   __CPROVER_assert((in_n % 4 != 0) ==> (__exc == EXC_invalid_argument), "a length that is not a multiple of four is refused");
   CANARY_POINT();
 }
+
+/* h_decode_stub: the same obligation with base64_decode taken by its contract STUB (any payload of at most PAYLOAD_CAP bytes in a
+   fixed buffer, or invalid_argument) and a tiny concrete-size URI text (its content beyond the scheme is irrelevant once the decoder
+   is abstracted): keeps symbolic execution small.  VERSION1 restricts to version-1 payloads (header, shards; no metadata). */
+void h_decode_stub(void)
+{
+  static char text[12]; static str uri;
+  uint64_t in_n; __CPROVER_assume(in_n <= 10);
+  { char any[12]; for (int k = 0; k < 12; ++k) text[k] = any[k]; }
+  uri.p = text; uri.n = in_n; uri.cap = 11;
+  { uint8_t any[PAYLOAD_CAP + 8]; for (int k = 0; k < PAYLOAD_CAP + 8; ++k) g_payload_buf[k] = any[k]; }
+#ifdef VERSION1
+  g_payload_buf[0] = 1;
+#endif
+  __exc = 0;
+  protocol__Manifest m = protocol__decode_manifest(&uri);
+  __CPROVER_assert(__exc == 0 || __exc == EXC_invalid_argument, "decode_manifest raises nothing but invalid_argument");
+  CANARY_POINT();
+}
